@@ -186,6 +186,9 @@ func (c *Check) expiredBatchRules(prefix string, which map[string]bool) {
 			for _, e := range c.P.effectsOfEvent(f, ev) {
 				if e.Kind == "store" && e.Op == "Iter" && e.Family == "0x13" {
 					k := keyArgs(e)
+					if len(k) == 2 {
+						k[1] = c.fieldThroughCall(k[1])
+					}
 					if len(k) != 2 || !k[0].IsAt(u.EB.IdP) || k[1].String() != "(.RequestContext.BatchCounter "+u.EB.ValP+")" {
 						add("clean-args", "the clean scan is keyed by "+fmtTerms(k)+" — not (id, the context's BatchCounter)", pa)
 					}
@@ -487,7 +490,7 @@ func (c *Check) newBatchDequeue(prefix string) {
 	classes := map[string]bool{}
 	okAll := map[string]bool{}
 	for _, pa := range c.P.PathsOf(f) {
-		af := pa.AllFacts()
+		af := c.closeFacts(pa.AllFacts())
 		class := "normal"
 		for _, fa := range af {
 			if fa.Neg && fa.T.Op == "ok" && fa.T.A[0].Op == u.FL.Name {
@@ -613,4 +616,31 @@ func (c *Check) presenceLeaves(af FactSet, fam string, id *Term) []*Term {
 		}
 	}
 	return out
+}
+
+// fieldThroughCall: (.S.F (g args…)) where every committed path of the module function g returns a value whose field
+// F is the same term over g's parameters (typically: a record handed in, updated in other fields, handed back) is
+// that term on the arguments.
+func (c *Check) fieldThroughCall(t *Term) *Term {
+	if t == nil || !strings.HasPrefix(t.Op, ".") || len(t.A) != 1 {
+		return t
+	}
+	call := stripConv(t.A[0])
+	g := c.P.FuncNamed(call.Op)
+	if g == nil || !g.isHandWritten() || g.Body == nil || len(g.Res) != 1 || c.P.pathsBusy[g] {
+		return t
+	}
+	var common *Term
+	for _, v := range c.retVariants(call) {
+		fv := simplify(&Term{Op: t.Op, A: []*Term{v}, Typ: t.Typ})
+		if common == nil {
+			common = fv
+		} else if !common.Eq(fv) {
+			return t
+		}
+	}
+	if common == nil || common.ContainsOp(call.Op) {
+		return t
+	}
+	return common
 }
